@@ -53,7 +53,7 @@ KINDS_WRITE = ['io', 'eof', 'foreign', 'value', 'kbd', 'baseexc', 'broken', 'epi
 def plan(tier):
     if tier == 'thorough':
         return {'cases': 120000, 'chunk': 200, 'budget_s': 1200, 'case_timeout_s': 60, 'minimise_budget_s': 240}
-    return {'cases': 9000, 'chunk': 100, 'budget_s': 80, 'case_timeout_s': 60, 'minimise_budget_s': 90}
+    return {'cases': 9000, 'chunk': 40, 'budget_s': 60, 'case_timeout_s': 60, 'minimise_budget_s': 90}
 
 
 def engine_configs(rng):
